@@ -65,6 +65,30 @@ def tail_family(r):
     return "\n".join(L + main) + "\n"
 
 
+def param_family(r):
+    """functions that overwrite their parameters (out of line a parameter is a copy; inlined it has to behave like one): count-down
+    loops, clamps, accumulations; the arguments are register variables (read only by the call, or also afterwards), literals,
+    expressions; the calls sit in a loop, so the caller's variables must survive every call"""
+    nf = r.randrange(1, 3)
+    L, calls = [], []
+    for j in range(nf):
+        form = r.choice(["countdown", "clamp", "accumulate"])
+        if form == "countdown":
+            L += [f"def f{j}(k):", "    while k > 0:", f"        d{j}.Setting = k", "        k -= 1", ""]
+        elif form == "clamp":
+            L += [f"def f{j}(k):", f"    if k > {r.choice([1, 2])}:", f"        k = {r.choice([1, 2])}", f"    d{j}.Mode = k", ""]
+        else:
+            L += [f"def f{j}(k):", f"    k = k * 2 + {j}", "    k += 1", f"    d{j}.On = k", ""]
+        calls.append(f"f{j}({r.choice(['n', 'n', 'm', 'n + 1', '3'])})")
+        if r.random() < 0.3:
+            calls.append(f"f{j}({r.choice(['n', 'm', '2'])})")       # a second call site: the function is not inlined
+    main = ["n = d4.Setting + 2", "m = d5.Setting + 1", "x = 0", "while x < 3:", "    x = x + 1"] + ["    " + c for c in calls] + ["    yield_()"]
+    if r.random() < 0.5:
+        main.append("    db.Power = n + m")
+    main += ["db.Mode = x", "while True:", "    yield_()"]
+    return "\n".join(L + main) + "\n"
+
+
 def run(tier: str, seed: int) -> int:
     chk = Check(PROP, tier, seed, "other")
     chk.assumptions = ["PV.Src / PV.IC10 are trusted specifications; behaviour = effect trace against pseudo-random device environments (prefix rule)",
@@ -156,8 +180,9 @@ def run(tier: str, seed: int) -> int:
     # -- tail family: chains of parameterless procedures ending in a call, entered from several sites; every combination of
     #    inlining x tail calls x calling convention, outputs compared pairwise ------------------------------------------------
     import itertools
-    for i in range(25 if tier == "quick" else 200):
-        src = tail_family(r)
+    for i in range(40 if tier == "quick" else 320):
+        # (… and the parameter family: functions that overwrite their parameters, called from a loop)
+        src = tail_family(r) if i % 8 < 5 else param_family(r)
         traces = []
         for inl, tco, pp in itertools.product([False, True], repeat=3):
             o = whole.random_opts(r)
